@@ -898,6 +898,24 @@ _MUTATORS = {'sort', 'resize', 'put', 'fill', 'itemset', 'partition', 'setfield'
              'remove', 'reverse', 'clear'}
 
 
+def _same_values(a: ast.AST) -> ast.AST:
+    """strip wrappers that return an array of the same values in the same order: x[:], x.copy(), np.asarray(x), np.array(x)"""
+    while True:
+        if isinstance(a, ast.Subscript) and isinstance(a.slice, ast.Slice) and a.slice.lower is None and a.slice.upper is None \
+                and a.slice.step is None:
+            a = a.value
+        elif isinstance(a, ast.Call) and isinstance(a.func, ast.Attribute) and a.func.attr == 'copy' and not a.args and not a.keywords:
+            a = a.func.value
+        elif isinstance(a, ast.Call) and (dotted(a.func) or '') in ('np.asarray', 'np.array', 'np.ascontiguousarray', 'np.copy', 'numpy.asarray',
+                                                                    'numpy.array') and len(a.args) == 1 \
+                and all(k.arg in ('dtype', 'copy') for k in a.keywords) \
+                and all(k.arg != 'dtype' or (isinstance(k.value, ast.Name) and k.value.id == 'float') or ast.unparse(k.value) in ('np.float64', 'np.double')
+                        for k in a.keywords):
+            a = a.args[0]
+        else:
+            return a
+
+
 def r_profile_from_kernel(ctx, rule: str, modules: Optional[Tuple[str, ...]] = None) -> List[Ob]:
     """A bivariate profile function hands the arrays its kernel returns to the function class unchanged: the layout
     of those arrays (edge entries at both ends of a discrete profile, one value per interval of a piecewise profile)
@@ -923,6 +941,7 @@ def r_profile_from_kernel(ctx, rule: str, modules: Optional[Tuple[str, ...]] = N
             for c in ast.iter_child_nodes(n):
                 par[c] = n
         binds = []
+        direct: List[ast.Call] = []
         shape_problem = None
         for call, _s, _ks in calls:
             p = par.get(call)
@@ -934,9 +953,17 @@ def r_profile_from_kernel(ctx, rule: str, modules: Optional[Tuple[str, ...]] = N
                 if isinstance(t, ast.Name):
                     binds.append((p, (t.id,), True))
                     continue
+            if isinstance(p, ast.Starred) and isinstance(par.get(p), ast.Call) and any(par.get(p) is r.value for r in rets) \
+                    and len(par[p].args) == 1 and not par[p].keywords:
+                direct.append(call)                      # return Cls(*kernel(...)): nothing can lie in between
+                continue
             shape_problem = f"the result of `{ast.unparse(call)[:60]}` is not bound to names"
         t_all = f"{fi.name} ({fi.path}): the profile object is constructed from the arrays of the kernel call exactly as returned"
-        if shape_problem or not binds or len({b[1:] for b in binds}) != 1:
+        if direct and not binds and not shape_problem:
+            for call in direct:
+                obs.append(ok(rule, t_all, fi.loc(call), construct=f"{fn}::ctor::direct", detail='the constructor is applied to the kernel call itself'))
+            continue
+        if shape_problem or not binds or direct or len({b[1:] for b in binds}) != 1:
             obs.append(inconclusive(rule, t_all, fi.loc(), shape_problem or 'kernel calls bind different names', construct=fn))
             continue
         names, packed = binds[0][1], binds[0][2]
@@ -969,7 +996,7 @@ def r_profile_from_kernel(ctx, rule: str, modules: Optional[Tuple[str, ...]] = N
                                          detail=f"{what} between the kernel call and the constructor: the class methods (integral, avrg, add, "
                                                 f"evaluation) are written against the layout the kernel produces"))
         for r in rets:
-            cargs = r.value.args
+            cargs = [_same_values(a) for a in r.value.args]
             if r.value.keywords:
                 kw = {k.arg: k.value for k in r.value.keywords}
             else:
@@ -977,6 +1004,11 @@ def r_profile_from_kernel(ctx, rule: str, modules: Optional[Tuple[str, ...]] = N
             if packed:
                 good = len(cargs) == 1 and isinstance(cargs[0], ast.Starred) and isinstance(cargs[0].value, ast.Name) \
                     and alias.get(cargs[0].value.id, cargs[0].value.id) == names[0] and not kw
+                if not good and cargs and not kw:
+                    # Cls(res[0], res[1], ...): the components in their order
+                    good = all(isinstance(a, ast.Subscript) and isinstance(a.value, ast.Name)
+                               and alias.get(a.value.id, a.value.id) == names[0] and isinstance(a.slice, ast.Constant)
+                               and a.slice.value == k for k, a in enumerate(cargs)) and len(cargs) >= 2
                 want = f"*{names[0]}"
             else:
                 got = [alias.get(a.id, a.id) if isinstance(a, ast.Name) else None for a in cargs]
